@@ -213,25 +213,31 @@ func countedLoop(u *U, s *Summary, l *Loop) *Counted {
 // continue condition equals i+K <= L for all small L and i (evaluated on
 // constants inside the checker).
 func windowsComplete(u *U, ct *Counted, lenExpr *E, K int64) string {
+	return windowsCompleteAt(u, ct, lenExpr, K, 0)
+}
+
+// windowsCompleteAt: the window of iteration i starts at i+d (d = 0 for the
+// usual "for i := 0; i+K <= n", d = -K for "for end := K; end <= n").
+func windowsCompleteAt(u *U, ct *Counted, lenExpr *E, K, d int64) string {
 	if ct == nil {
 		return "UNDECIDED: not a counted loop"
 	}
-	if v, ok := ct.Init.IntVal(); !ok || v != 0 {
+	if v, ok := ct.Init.IntVal(); !ok || v+d != 0 {
 		return "the scan does not start at offset 0 (start: " + u.Show(ct.Init) + ")"
 	}
 	if !ct.StepOK || ct.Step != 1 {
 		return fmt.Sprintf("the scan does not advance by exactly one byte (step %d, uniform=%v)", ct.Step, ct.StepOK)
 	}
 	for L := int64(0); L <= 2*K+2; L++ {
-		for i := int64(0); i <= L+1; i++ {
-			sub := map[string]*E{ct.Idx.key: u.Int(i), lenExpr.key: u.Int(L)}
+		for st := int64(0); st <= L+1; st++ {
+			sub := map[string]*E{ct.Idx.key: u.Int(st - d), lenExpr.key: u.Int(L)}
 			val, ok, res := foldCond(u, ct.Cont, sub)
 			if !ok {
 				return "UNDECIDED: loop condition does not fold on constants: " + res
 			}
-			want := i+K <= L
+			want := st+K <= L
 			if val != want {
-				return fmt.Sprintf("for a string of length %d the loop %s the window starting at %d (width %d): the last/first windows are not probed exactly", L, map[bool]string{true: "visits", false: "skips"}[val], i, K)
+				return fmt.Sprintf("for a string of length %d the loop %s the window starting at %d (width %d): the last/first windows are not probed exactly", L, map[bool]string{true: "visits", false: "skips"}[val], st, K)
 			}
 		}
 	}
